@@ -903,6 +903,8 @@ public:
    */
   Nref getNode(NodeIndex node) const
   {
+    if (!hasNode(node))
+      throw Exception("AssociationGraphImplObserver::getNode : no node with index " + TextTools::toString(node));
     return indexToN_.at(node);
   }
 
@@ -913,6 +915,8 @@ public:
    */
   Eref getEdge(EdgeIndex edge) const
   {
+    if (!hasEdge(edge))
+      throw Exception("AssociationGraphImplObserver::getEdge : no edge with index " + TextTools::toString(edge));
     return indexToE_.at(edge);
   }
 
